@@ -97,10 +97,32 @@ def gen_core_option(rng, core_spec):
     return gen_one_option(rng, core_spec)
 
 
-def active_spec(specs, groups, j):
+def starts_of(case, specs):
+    """indices of the groups that are task names (recorded by the generator; older cases:
+    every single-token group naming a task)"""
+    if "starts" in case:
+        return list(case["starts"])
+    names = set()
+    for c in specs:
+        names.add(c["name"])
+        names.update(c["aliases"])
+    return [i for i, g in enumerate(case["groups"]) if len(g) == 1 and g[0] in names]
+
+
+def group_starts(inv):
+    out, i = [], 0
+    for call in inv:
+        out.append(i)
+        i += 1 + len(call["occs"])
+    return out
+
+
+def active_spec(specs, groups, j, starts=None):
     cur = None
     start = 0
     for i, g in enumerate(groups[:j]):
+        if starts is not None and i not in starts:
+            continue
         if len(g) == 1:
             for c in specs:
                 if g[0] == c["name"] or g[0] in c["aliases"]:
@@ -108,8 +130,8 @@ def active_spec(specs, groups, j):
     return cur, start
 
 
-def missing_positional_at(specs, groups, j):
-    c, start = active_spec(specs, groups, j)
+def missing_positional_at(specs, groups, j, starts=None):
+    c, start = active_spec(specs, groups, j, starts)
     if c is None:
         return False
     req = pc.required_positionals(c)
@@ -190,7 +212,7 @@ class C18(Prop):
                     if rng.random() < 0.25:
                         rem = [rng.choice(["foo", "--bar", "--", "a b", "", "-e", "build"]) for _ in range(rng.randint(0, 3))]
                     case = {"sigs": sigs, "groups": groups, "opt": opt, "j": j, "flags": flags,
-                            "rem": rem, "form": form}
+                            "rem": rem, "form": form, "starts": group_starts(inv)}
                 yield case
                 produced += 1
                 if produced >= n:
@@ -231,9 +253,10 @@ class C18(Prop):
     def to_coq(self, case, obs):
         specs = pc.ctx_specs(case["sigs"])
         rem = "None" if case.get("rem") is None else "(Some %s)" % ct.strs(case["rem"])
-        return "(mk %s %s %s %s %s %s %s %s %s)" % (
+        return "(mk %s %s %s %s %s %s %s %s %s %s)" % (
             ct.lst([pc.ctxspec(c) for c in specs]),
-            ct.lst([ct.strs(g) for g in case["groups"]]), ct.strs(case["opt"]), ct.n(case["j"]),
+            ct.lst([ct.strs(g) for g in case["groups"]]), ct.lst([ct.n(i) for i in starts_of(case, specs)]),
+            ct.strs(case["opt"]), ct.n(case["j"]),
             ct.strs(case["flags"]), rem,
             ct.result(obs["base"], gobs), ct.result(obs["front"], gobs), ct.result(obs["placed"], gobs))
 
@@ -250,10 +273,11 @@ class C18(Prop):
         if not case["opt"]:
             return None
         specs = pc.ctx_specs(case["sigs"])
-        c, start = active_spec(specs, case["groups"], case["j"])
+        starts = starts_of(case, specs)
+        c, start = active_spec(specs, case["groups"], case["j"], starts)
         if c is None:
             return None
-        if missing_positional_at(specs, case["groups"], case["j"]):
+        if missing_positional_at(specs, case["groups"], case["j"], starts):
             return "F-C18b"
         if case["j"] >= 1:
             prev = case["groups"][case["j"] - 1]
@@ -282,12 +306,18 @@ class C18(Prop):
         if case.get("rem") is not None:
             yield dict(case, rem=None)
         g, j = case["groups"], case["j"]
+
+        def drop(i, newj):
+            c2 = dict(case, groups=g[:i] + g[i + 1:], j=newj)
+            if "starts" in case:
+                c2["starts"] = [x - 1 if x > i else x for x in case["starts"] if x != i]
+            return c2
         # drop whole calls after the placement, then single groups
         for i in range(len(g) - 1, -1, -1):
             if i >= j:
-                yield dict(case, groups=g[:i] + g[i + 1:])
+                yield drop(i, j)
             elif i > 0 or (len(g) > 1 and len(g[1]) == 1 and not g[1][0].startswith("-")):
-                yield dict(case, groups=g[:i] + g[i + 1:], j=j - 1)
+                yield drop(i, j - 1)
 
         # drop tasks the command line never names
         words = set(flat(g))
@@ -361,7 +391,8 @@ class C18(Prop):
             base = flat(groups) + tail
             front = opt + flat(groups) + tail
             placed = flat(groups[:j]) + opt + flat(groups[j:]) + tail
-            case = {"sigs": sigs, "groups": groups, "opt": opt, "j": j, "flags": [fl], "rem": rem, "form": form}
+            case = {"sigs": sigs, "groups": groups, "opt": opt, "j": j, "flags": [fl], "rem": rem, "form": form,
+                    "starts": group_starts(inv)}
             rb, rf, rp = pc.run_effects(sigs, base), pc.run_effects(sigs, front), pc.run_effects(sigs, placed)
             evaluations += 1
             exp = [[nm, kw] for nm, kw in pc.expected_calls(specs, inv)]
@@ -378,7 +409,7 @@ class C18(Prop):
                     names_kw(rf) != expected_after_dedupe(exp, field != "dedupe"):
                 what = "core option in front has not the documented effect: %r" % (rf,)
             else:
-                c_act, _ = active_spec(specs, groups, j)
+                c_act, _ = active_spec(specs, groups, j, group_starts(inv))
                 shadow = c_act is not None and (pc.arg_of_flag(c_act, fl) is not None or any(
                     a["kind"] == "KBool" and a["default"] is True and pc.to_flag_py("no-" + a["names"][0]) == fl
                     for a in c_act["args"]))
